@@ -929,11 +929,10 @@ impl FseEncoder {
                 }
                 current_state = new_state;
             } else {
-                println!("FSE encode[{}]: FALLBACK symbol={} ('{}'), state={}", 
-                    encode_count, symbol, symbol as char, current_state);
-                // Fallback: emit symbol directly with escape marker
-                output.push(0xFF); // Escape marker
-                output.push(symbol); // Literal symbol
+                // The decoder has no escape mechanism: a symbol without a table slot cannot be coded
+                return Err(ZiporaError::invalid_data(format!(
+                    "Symbol {} is not in the FSE table", symbol
+                )));
             }
             encode_count += 1;
         }
